@@ -57,16 +57,7 @@ func (w *Worker) mut(id int) *Obj {
 	c := *o
 	c.Leaves = append([]Val(nil), o.Leaves...)
 	w.objs[id] = &c
-	if o.Tag != "" && !w.globalWriteOK[o.Tag] && w.inOnce == 0 && isLibraryGlobal(o.Tag) {
-		// obligation O1 (C19): package-level state is not written after initialisation
-		w.globalWrites = append(w.globalWrites, o.Tag+" in "+w.curFn())
-		key := "global-write:" + o.Tag
-		if !w.inPrefix() && !w.reportedOnce[key] {
-			w.reportedOnce[key] = true
-			w.ensureModel()
-			w.reportViolation("shared-state", "global-write", w.libSite(), "store to package-level variable "+o.Tag+" after initialisation", w.model)
-		}
-	}
+	w.noteGlobalWrite(o.Tag)
 	return &c
 }
 
@@ -493,4 +484,18 @@ func (w *Worker) constVal(c *ssa.Const) Val {
 // dependencies (sync.Pool internals and math/rand state are modelled, not executed).
 func isLibraryGlobal(tag string) bool {
 	return strings.HasPrefix(tag, "github.com/gobwas/")
+}
+
+// noteGlobalWrite: obligation O1 (C19) — package-level state is not written after initialisation.
+func (w *Worker) noteGlobalWrite(tag string) {
+	if tag == "" || w.globalWriteOK[tag] || w.inOnce > 0 || w.initDepth > 0 || !isLibraryGlobal(tag) {
+		return
+	}
+	w.globalWrites = append(w.globalWrites, tag+" in "+w.curFn())
+	key := "global-write:" + tag
+	if !w.inPrefix() && !w.reportedOnce[key] {
+		w.reportedOnce[key] = true
+		w.ensureModel()
+		w.reportViolation("shared-state", "global-write", w.libSite(), "store to package-level variable "+tag+" after initialisation", w.model)
+	}
 }
